@@ -1,2 +1,5 @@
-import Snowflake.Base.Hex
-import Snowflake.Model.Encap
+-- Root of the library: every property and tie module (keep in sync with tools/props/*.py).
+import Snowflake.Props.C06
+import Snowflake.Props.C09
+import Snowflake.Tie.Encap
+import Snowflake.Tie.NameMatcher
